@@ -189,7 +189,7 @@ def ref_read(text, c=REF):
         labels = []
         while True:
             if not q:
-                raise ReadError("text ends inside the labels")
+                break  # the text ends with the last label (no line break after it): a block without rows
             if not peek("PROPERTY"):
                 break
             lab = take("PROPERTY")[1]
@@ -264,5 +264,7 @@ def read_probes(c=REF):
     t.append(("label carrying the loop keyword inside", f"data_x\n{L}\n{P}{L}a\n{P}b{L}\n1 2\n"))
     t.append(("label numbers that do not follow the order of the lines", f"data_x\n{L}\n{P}b {H}2\n{P}a {H}1\n{P}c {H}7\n1 2 3\n"))
     t.append(("block names with capital letters (STOPGAP wedge lists, user-defined blocks)", f"\ndata_stopgap_WedgeList\n\n{L}\n{lab(['tomo_num', 'Pixelsize'], False)}\n1 2.5\n\n\ndata_Optics_B\n{L}\n{lab(['rlnOpticsGroupName'], True)}OpticsGroup1\n"))
+    t.append(("last block without rows, no line break at the end of the text", f"data_a\n{L}\n{lab(['p'], True)}1\n\ndata_b\n{L}\n{P}q {H}1\n{P}r {H}2"))
+    t.append(("a single block without rows, un-numbered labels, no line break at the end", f"data_b\n\n{L}\n{P}q\n{P}r"))
     t.append(("twelve rows", f"data_x\n{L}\n{lab(['a', 'b'], True)}" + "".join(f"{i} {i * i}\n" for i in range(12))))
     return t
